@@ -167,8 +167,6 @@ def sq_to_gq(sq_params):
                  2.0 * fsq - 2.0 * csq * zsq,
                  asq * xsq**2 + bsq * ysq**2 + csq * zsq**2
                  - 2.0 * (dsq * xsq + esq * ysq + fsq * zsq) + gsq]
-    if eval_quadric(gq_params, (xsq, ysq, zsq)) > 0.0:
-        gq_params = [-param for param in gq_params]
     return gq_params
 
 
